@@ -628,6 +628,22 @@ def check_init_species(ctx):
     ok = txt == ['self.m.set_params(%s)' % a, 'self.csim.py_set_param_values(self.m.get_params_values())']
     ctx.ob('R15.4-trajectory-setup', 'set_init_params', ok, ctx.loc('inference', f),
            "parameters are set on the model by name and the interface is bound to the model's own array", str(txt))
+    # "each trajectory is simulated from its own initial condition and parameter condition": the accessors hand out entry n of the
+    # tables, for every n - no shortcut that serves another trajectory's entry
+    for mname, table in (('get_initial_state', 'self.initial_states'), ('get_initial_params', 'self.initial_parameters')):
+        g = ctx.fn('inference:ModelLikelihood.%s' % mname)
+        n_ = g.args.args[1].arg
+        bad = []
+        for r_ in [x for x in ast.walk(g) if isinstance(x, ast.Return)]:
+            v_ = src(r_.value).replace(' ', '') if r_.value is not None else 'None'
+            if v_ in ('%s[%s,:]' % (table, n_), '%s[%s]' % (table, n_)):
+                continue
+            gs = util.guards_of(r_, g)
+            if v_ == 'None' and gs <= {util.canon_test(ast.parse('%s is None' % table, mode='eval').body)} and gs:
+                continue        # no table at all: nothing to hand out
+            bad.append('returns %s%s' % (v_, (' when ' + ' and '.join(sorted(gs))) if gs else ''))
+        ctx.ob('R15.4-trajectory-setup', mname, not bad, ctx.loc('inference', g),
+               'trajectory n gets entry n of %s' % table, '; '.join(bad))
 
 
 def eval_likelihood_function(cls, f, ll, log_space):
